@@ -139,10 +139,11 @@ func runC06(c *Ctx) {
 			case fa.source == "param:peers":
 				okSrc = eng.IsObj(info, rg.X, paramObj(f, "peers"))
 			case hasPrefix(fa.source, "field:"):
-				okSrc = eng.IsField(info, rg.X, fa.source[6:])
+				rx := eng.ArgExpr(info, rg.X)
+				okSrc = eng.IsField(info, rx, fa.source[6:])
 				if okSrc {
 					// of the lookup this function ran
-					s := eng.Unparen(rg.X).(*ast.SelectorExpr)
+					s := eng.Unparen(rx).(*ast.SelectorExpr)
 					okSrc = false
 					for _, d := range f.AssignedFrom(eng.ObjOf(info, s.X)) {
 						if _, ok := eng.IsCallTo(info, defOrNil(d), "(*dht.IpfsDHT).runLookupWithFollowup"); ok {
@@ -464,6 +465,16 @@ func runC06(c *Ctx) {
 		}
 		c.Check("optimistic schedule sites", 0, n == 2, "the optimistic provide schedules in two places", "found "+itoa(n))
 	}
+
+	// R8 the records still in flight when Provide returns are sent: the watcher that turns the
+	// caller's cancellation into a stop of the puts ends with the function (C03.R11)
+	c.Rule("R8")
+	c03R11(c)
+
+	// R9 one recipient cannot hold up the others: the lock every send to every peer passes
+	// through (the sender map's) is never held while a stream is opened or a message exchanged
+	c.Rule("R9")
+	c06NoNetworkUnderMapLock(c)
 }
 
 // c06FilteredAddrs: the advertised address list is exactly filterAddrs(host.Addrs()).
@@ -529,4 +540,33 @@ func c06ProviderRecordContent(c *Ctx) {
 		c.Check(K(s.F.Name, "provider record content"), call.Pos(), ok, "an ADD_PROVIDER names exactly the local peer ID with dht.FilteredAddrs()", "AddrInfo is not {ID: dht.self, Addrs: dht.FilteredAddrs()}")
 	}
 	c.Check("PutProviderAddrs sites", 0, sites >= 2, "classic and optimistic provide announce", "found "+itoa(sites))
+}
+
+// c06NoNetworkUnderMapLock: in the message-sender package no call that waits for the network
+// (stream set-up, an exchange, or the per-peer sender's own lock, which is held across
+// exchanges) is made while messageSenderImpl.smlk may be held.
+func c06NoNetworkUnderMapLock(c *Ctx) {
+	blocking := []string{pmsFn + "prepOrInvalidate", pmsFn + "prep", pmsFn + "SendRequest", pmsFn + "SendMessage", pmsFn + "writeMsg", pmsFn + "ctxReadMsg",
+		"(github.com/libp2p/go-libp2p/core/host.Host).NewStream", "(*dht/internal.CtxMutex).Lock", "(dht/internal.CtxMutex).Lock"}
+	n := 0
+	for _, f := range c.P.Funcs() {
+		if eng.Short(f.Pkg.PkgPath) != "dht/internal/net" {
+			continue
+		}
+		calls := f.Calls(blocking...)
+		if len(calls) == 0 {
+			continue
+		}
+		// may-hold: on some path smlk is held when the call is made
+		info := f.Info()
+		li := f.MayLocks()
+		for _, call := range calls {
+			n++
+			held := li.HeldBefore(call)
+			_, may := held[msiT+".smlk"]
+			c.Check(K(f.Name, "network call "+eng.Short(eng.CalleeName(info, call))+" outside the map lock"), call.Pos(), !may,
+				"the sender-map lock is not held while waiting for the network or for a busy sender (every send to every peer takes that lock first)", "smlk may be held when this call is made (held: "+held.String()+")")
+		}
+	}
+	c.Check("network calls in the sender package", 0, n >= 6, "the sender package's network calls were found", "found "+itoa(n))
 }
